@@ -881,6 +881,11 @@ def mutable_fields(v):
             if isinstance(tgt, dict) and tgt.get("k") == "member" and tgt.get("record"):
                 if fn.get("kind") in ("ctor", "dtor") and fn.get("record") == tgt["record"]:
                     continue
+                # the library's lifecycle functions (init_X / new_X / clone_X / copy-construct helpers) build an X in raw storage:
+                # what they assign is the object's initial state, like a constructor's
+                import re as _re
+                if _re.match(r"^(init|new|clone|copy|alloc)_%s(_array)?$" % _re.escape(tgt["record"]), fn.name or ""):
+                    continue
                 out.setdefault((tgt["record"], tgt["field"]), set()).add(fn.q)
     return out
 
